@@ -25,8 +25,7 @@ def classify(text):
     try:
         tree = ast.parse(text)
         toks = list(tokenize.generate_tokens(io.StringIO(text, newline=None).readline))
-    except (SyntaxError, ValueError, tokenize.TokenError, IndentationError, RecursionError,
-            MemoryError):
+    except Exception:   # incl. SystemError raised by the C tokenizer on null bytes
         return None
     src_lines = io.StringIO(text, newline=None).readlines()
 
